@@ -45,7 +45,8 @@ type ProofU struct {
 
 func (p *ProofU) MergeProofP(proofP *ProofP, pk *gabikeys.PublicKey) {
 	if proofP.P == nil { // new keyshare protocol version
-		p.C.Set(proofP.C)
+		// a copy: p.C is the challenge object all proofs of the session share
+		p.C = new(big.Int).Set(proofP.C)
 		p.SResponse.Set(proofP.SResponse)
 	} else {
 		p.U.Mod(
@@ -190,7 +191,8 @@ type ProofD struct {
 // MergeProofP merges a ProofP into the ProofD.
 func (p *ProofD) MergeProofP(proofP *ProofP, _ *gabikeys.PublicKey) {
 	if proofP.P == nil { // new protocol version
-		p.C.Set(proofP.C)
+		// a copy: p.C is the challenge object all proofs of the session share
+		p.C = new(big.Int).Set(proofP.C)
 		p.AResponses[0].Set(proofP.SResponse)
 	} else {
 		p.AResponses[0].Add(p.AResponses[0], proofP.SResponse)
